@@ -163,7 +163,14 @@ Proof. reflexivity. Qed.
 Section Library.
   Variable printable : N -> bool.
   (* how a source that compile_text rejects / finds too large fails in the implementation:
-     CErr line col msg for a CompilerError, CCrash for any other exception.  Arbitrary. *)
+     CErr line col msg for a CompilerError, CCrash for any other exception.  Arbitrary.
+     KNOWN SIMPLIFICATION: one message per text.  The real message of "program too large for Python"
+     quotes CPython's SyntaxError, which names the file handed to compile() and a line number of the
+     generated text; that number is 2 higher when --debug-filename adds its `# from <file>` lines.  So
+     the equality of the error MESSAGE across debug options that debug_only_comments_lib states (as
+     part of r_end) holds for the implementation only up to that parenthesis; the check compares
+     messages after dropping it.  Everything the property speaks about (output, exit status,
+     file:line:column of syntax errors) is unaffected. *)
   Variable failure : str -> cres.
 
   Definition as_failure (r : cres) : cres := match r with COk _ => CCrash | r => r end.
